@@ -9,6 +9,7 @@ from ._abnf import ABNF, STATUS_NORMAL, continuous_frame, frame_buffer
 from ._exceptions import (
     WebSocketBadStatusException,
     WebSocketConnectionClosedException,
+    WebSocketException,
     WebSocketProtocolException,
 )
 from ._handshake import SUPPORTED_REDIRECT_STATUSES, handshake
@@ -277,12 +278,17 @@ class WebSocket:
                             self.handshake_response.headers,
                         )
                     self.sock.close()
-                    self.sock, addrs = connect(
-                        url,
-                        self.sock_opt,
-                        proxy_info(**options),
-                        options.pop("socket", None),
-                    )
+                    try:
+                        self.sock, addrs = connect(
+                            url,
+                            self.sock_opt,
+                            proxy_info(**options),
+                            options.pop("socket", None),
+                        )
+                    except ValueError as e:
+                        raise WebSocketException(
+                            f"Invalid redirect location {url!r}: {e}"
+                        )
                     self.handshake_response = handshake(
                         self.sock, url, *addrs, **options
                     )
